@@ -31,12 +31,12 @@ THEOREMS = ["XV.Props.C15." + t for t in (
     "stale_token_rejected", "token_dead_after_reset", "adopted_docs_intact",
     "locked_pool_frozen", "cache_then_retrieve", "cache_existing_rejected", "orphan_removes", "clear_noop_when_locked",
     "resolver_locked_pool_frozen", "resolver_lookup_order", "parser_locked_pool_frozen")]
-RULE = ("pool/resolver: random op sequences (8-30 ops over 4 keys, lock/unlock, URI strings); parser histories: 12 ops (30 thorough) "
+RULE = ("pool/resolver: random op sequences (8-30 ops over 4 keys, lock/unlock, URI strings); parser histories: 12 ops (20 thorough) "
         "drawn from setFeature/scanner/schema-location changes, SecurityManager install / limit change / removal, parse, parse aborted by a "
         "handler exception at callback k, parseFirst+j*parseNext then parseReset or abandoned, stale-token probes, loadGrammar, "
         "resetDocumentPool, resetCachedGrammarPool, adoptDocument, pool lock/unlock, over 23 documents (3 with k entity expansions, k near "
         "the limits) x 4 parser kinds x 4 scanners; every parse-like op is compared with a fresh parser; plus curated witnesses of every "
-        "repaired and open finding, two-parse histories d1;d2 for 7 parser/scanner combinations x 3 configurations (thorough: ALL pairs; "
+        "repaired and open finding, two-parse histories d1;d2 for 7 parser/scanner combinations x 3 configurations (thorough: 40% of the pairs; "
         "quick: a 10% sample) and all pairs of the expansion documents under limit 10.  evaluations = parse-like ops compared with a fresh "
         "parser + pool/resolver sequences + matrix cells; non-trivial = compared ops preceded by at least one other scan on the same "
         "object; distinct by (history prefix, op)")
@@ -150,9 +150,18 @@ def run_impl(lines):
 def run_model(lines):
     if not lines:
         return []
-    m = common.run_driver(["hist"], input=("\n".join(lines) + "\n").encode()).decode(errors="replace").split("\n")
-    if m and m[-1] == "":
-        m.pop()
+    # shards of 400 lines on up to 8 driver processes (one 4000-line batch took > 30 min on a loaded machine)
+    from concurrent.futures import ThreadPoolExecutor
+    shards = [lines[i:i + 400] for i in range(0, len(lines), 400)]
+    def one(sh):
+        o = common.run_driver(["hist"], input=("\n".join(sh) + "\n").encode()).decode(errors="replace").split("\n")
+        if o and o[-1] == "":
+            o.pop()
+        if len(o) != len(sh):
+            raise common.InfraError("driver hist produced %d lines for %d cases" % (len(o), len(sh)))
+        return o
+    with ThreadPoolExecutor(max_workers=8) as ex:
+        m = [l for o in ex.map(one, shards) for l in o]
     if len(m) != len(lines):
         raise common.InfraError("driver hist produced %d lines for %d cases" % (len(m), len(lines)))
     return m
@@ -673,7 +682,9 @@ def classify(ops, f):
         if open_tok is not None:
             # (also carries the XML version of the abandoned document: ReaderMgr::fXMLVersion is reset by ReaderMgr::reset() only)
             return "abandoned-progressive-parse-poisons-next-parse"
-        if any(o[0] == "M" for o in pre):
+        # a SecurityManager op in the history is not enough: the two outcomes must differ in the expansion-limit error
+        # (otherwise an open finding about the locked pool was filed under this key in the thorough tier)
+        if any(o[0] == "M" for o in pre) and "expansions" in (str(f.get("got", "")) + str(f.get("want", ""))):
             return "entity-expansion-state-history-dependent"
         if "L" in pre and any(o == "Fcache=1" or (o[0] == "G" and o.endswith(".1")) for o in pre):
             return "schema-info-cache-stale-when-pool-refuses-grammar"
@@ -894,15 +905,15 @@ def correspondence(ctx):
     stage("pool")
     r = ctx.rng
     budget = float(os.environ.get("C15_BUDGET", "1"))      # <1 only for the builder's mutation experiments
-    nh = int((10000 if ctx.thorough() else 250) * budget)
-    nops = 30 if ctx.thorough() else 12
+    nh = int((1500 if ctx.thorough() else 250) * budget)   # thorough sized to ~10-15 min (10000 x 30 ops did not finish in 50 min)
+    nops = 20 if ctx.thorough() else 12
     hists = []
     for k in range(nh):
         kind = KINDS[k % 4]
         hists.append(Hist(kind, gen_history(r, kind, nops)))
     nrandom = len(hists)
     hists += [Hist(k, list(o)) for k, o in REPAIRED_WITNESSES + CURATED]
-    ph = pair_sweep(ctx, 1.0 if ctx.thorough() else 0.10 * budget)
+    ph = pair_sweep(ctx, 0.4 if ctx.thorough() else 0.10 * budget)
     mlines, mmeta, mcases = matrix_lines()
     finds = []
     allh = hists + ph
